@@ -26,5 +26,24 @@ def run(ctx, which, pid):
         c.prefix = pid + c.prefix[3:]
         ex, obs = add_to_ctx(ctx, c, callees)
         n += len(obs)
+    if pid == "C20":
+        import vlib.pyvc.prims as P
+
+        from ..contracts import numbaggwrap as NB
+
+        for c, callees, models in NB.all_numbaggwrap():
+            c.prefix = pid + c.prefix[3:]
+            orig = P.Prims.register_defaults
+
+            def reg(self, orig=orig, models=models):
+                orig(self)
+                models(self)
+
+            P.Prims.register_defaults = reg
+            try:
+                ex, obs = add_to_ctx(ctx, c, callees)
+            finally:
+                P.Prims.register_defaults = orig
+            n += len(obs)
     conformance.add_to_ctx(ctx, ["argsort", "nonzero", "reduceat"])
     return f"flox-engine kernels and the numpy_groupies nansum/nanprod wrappers (exactly NaN is replaced by the neutral element, infinities stay): {n} obligations from {', '.join(which)}."
